@@ -36,6 +36,23 @@ def field_types(F, view):
             put(prefix + fld['name'], ty, adt_path, bind, depth)
 
     def put(path, ty, adt_path, bind, depth):
+        if ty.get('adt') in ('std::vec::Vec', 'std::collections::VecDeque') and ty.get('args'):
+            # a queue of small structs / tuples is presented by the value graph as one queue per component (sfa/vg.py: aos_normalise)
+            el = ty['args'][0]
+            if 'param' in el and el['param'] in bind:
+                el = bind[el['param']]
+            comps = None
+            if isinstance(el.get('tuple'), list) and len(el['tuple']) >= 2:
+                comps = [(str(i), x) for i, x in enumerate(el['tuple'])]
+            elif el.get('adt') in F.adts and el.get('adt') not in {v.adt_path for v in F.views}:
+                ea = F.adts[el['adt']]
+                if ea.get('kind') == 'Struct' and len(ea.get('variants', [])) == 1 and ea['variants'][0]['fields']:
+                    eb = dict(zip(ea.get('generics', []), [bind.get(a['param'], a) if 'param' in a else a for a in el.get('args', [])]))
+                    comps = [(f_['name'], eb.get(f_['ty'].get('param'), f_['ty']) if 'param' in f_['ty'] else f_['ty']) for f_ in ea['variants'][0]['fields']]
+            if comps:
+                for cn, cty in comps:
+                    out['%s.%s' % (path, cn)] = {'adt': ty['adt'], 'args': [cty]}
+                return
         out[path] = ty
         if ty.get('adt') in F.adts and ty.get('adt') != adt_path:
             gens = F.adts[ty['adt']]['generics']
